@@ -55,6 +55,7 @@ def configs(tier):
         out.append(dict(region=region, layout="loader", uo="cm", us="cm", n=(2 if region == "sphere" else 1), nopos="other",
                         _split=(4 if region == "box" else 0)))
         out.append(dict(region=region, layout="legacy", uo="cm", us="cm", n=1, nopos="other"))
+    out.append(dict(region="box", layout="mesh-only", uo="cm", us="au", n=1, nopos="same", us_y="cm", us_z="m", _split=3))
     if tier != "quick":
         out.append(dict(region="sphere", layout="loader", uo="au", us="pc", n=3, nopos="same"))
     return out
@@ -108,8 +109,9 @@ def body(m, cfg):
         args = dict(radius=Array(R, unit=us), origin=origin)
     else:
         sz = [m.real("d" + c, positive=True) for c in "xyz"]
-        sizes = [m.t(s) * fs for s in sz]
-        args = dict(dx=Array(sz[0], unit=us), dy=Array(sz[1], unit=us), dz=Array(sz[2], unit=us), origin=origin)
+        uss = [us, cfg.get("us_y", us), cfg.get("us_z", us)]           # the three sizes may come in different length units
+        sizes = [m.t(s) * C.fd(u)[0] for s, u in zip(sz, uss)]
+        args = dict(dx=Array(sz[0], unit=uss[0]), dy=Array(sz[1], unit=uss[1]), dz=Array(sz[2], unit=uss[2]), origin=origin)
     before = {}
     for name, (_, g) in groups.items():
         before[name] = {k: ([m.vals(c._array) for c in (g[k]._xyz.values() if hasattr(g[k], "_xyz") else [g[k]])], str(g[k].unit), id(g[k]))
